@@ -173,7 +173,16 @@ def eval_term(t, env, path=None):
             return None
         signed = bool(path.tags.get(("signed", t))) if path is not None else False
         wa = A.width_of(t[2])
+        if t[1] in A.CMP_OPS:
+            if signed:
+                a, b = A.to_signed(a, wa), A.to_signed(b, wa)
+            return int({"Eq": a == b, "Ne": a != b, "Lt": a < b, "Le": a <= b, "Gt": a > b, "Ge": a >= b}[t[1]])
         return A.fold(t[1], a, b, wa, signed, t[4])
+    if k == "index" and len(t) == 3 and isinstance(t[1], tuple) and t[1][0] == "agg" and t[1][1] == "array" and isinstance(t[2], tuple):
+        i = eval_term(t[2], env, path)
+        if i is None or i >= len(t[1][3]):
+            return None
+        return eval_term(t[1][3][i], env, path)
     if k == "ret" and t[1] in ("min", "max") and len(t[2]) == 2:
         a, b = eval_term(t[2][0], env, path), eval_term(t[2][1], env, path)
         if a is None or b is None:
